@@ -4,7 +4,9 @@
 package c07
 
 import (
+	"math/bits"
 	"strconv"
+	"strings"
 	"testing"
 
 	"pgregory.net/rapid"
@@ -19,7 +21,15 @@ const (
 
 var exhTerms = []string{"a", "b", "c"}
 
-func leafQ(i int) *Q { return &Q{Kind: "term", Field: "t", Text: exhTerms[i]} }
+// exhField: half of the indexes (odd number of one bits in the index number) hold the three terms
+// as values of the keyword field k - postings without frequencies and positions, with the
+// segment's one-document ("1-hit") encoding -, the other half as words of the text field t.
+func exhField(index int) string {
+	if bits.OnesCount(uint(index))%2 == 1 {
+		return "k"
+	}
+	return "t"
+}
 
 // exhShapes enumerates the boolean shapes once.
 //
@@ -29,7 +39,8 @@ func leafQ(i int) *Q { return &Q{Kind: "term", Field: "t", Text: exhTerms[i]} }
 // 0..2 for two shoulds) sits as must, should or must-not clause of an outer boolean next to the
 // leaf c as must, should, must-not or absent (minimum 0..1, 0..2 for two shoulds).  Permuting the
 // leaves adds nothing: every assignment of the terms to the documents is enumerated.
-func exhShapes() []*Q {
+func exhShapes(field string) []*Q {
+	leafQ := func(i int) *Q { return &Q{Kind: "term", Field: field, Text: exhTerms[i]} }
 	var out []*Q
 	add := func(q *Q, role int, child *Q) {
 		switch role {
@@ -86,12 +97,18 @@ func exhShapes() []*Q {
 	return out
 }
 
-var exhShapeList = exhShapes()
+var exhShapeLists = map[string][]*Q{"t": exhShapes("t"), "k": exhShapes("k")}
+var exhShapeCount = len(exhShapeLists["t"])
 
 // ExhCase names one index of the scope (and optionally a subset of the shapes).
 type ExhCase struct {
 	Index  int   `json:"index"`
 	Shapes []int `json:"shapes,omitempty"`
+	// Merged: the "merged twin" of the index - the same five documents written through the offline
+	// writer (batches of split+1 and the rest, merged into one segment when the writer closes,
+	// searched through OpenReader).  Not part of the exhaustive scope proper (one segment, nothing
+	// deleted); it puts every shape on the encodings only merged segments have.
+	Merged bool `json:"merged,omitempty"`
 }
 
 // exhCorpus decodes an index number: bits 0-14 the term subsets of the five documents, bits
@@ -99,25 +116,29 @@ type ExhCase struct {
 // segment and deleted by the second batch, so that every index has a pending deletion.
 func exhCorpus(index int) Corpus {
 	split := (index>>15)&3 + 1 // documents in the first segment
+	keyword := exhField(index) == "k"
 	var docs []Doc
 	for j := 0; j < exhDocs; j++ {
 		sub := (index >> (3 * uint(j))) & 7
-		text := ""
+		var terms []string
 		for b := 0; b < 3; b++ {
 			if sub&(1<<uint(b)) != 0 {
-				if text != "" {
-					text += " "
-				}
-				text += exhTerms[b]
+				terms = append(terms, exhTerms[b])
 			}
 		}
 		d := Doc{ID: "d" + strconv.Itoa(j)}
-		if text != "" {
-			d.T = []string{text}
+		switch {
+		case keyword:
+			d.K = terms
+		case len(terms) > 0:
+			d.T = []string{strings.Join(terms, " ")}
 		}
 		docs = append(docs, d)
 	}
 	ghost := Doc{ID: "x", T: []string{"a b c"}}
+	if keyword {
+		ghost = Doc{ID: "x", K: []string{"a", "b", "c"}}
+	}
 	var first, second []Op
 	at := index % (split + 1) // where the doomed document sits inside the first segment
 	for j := 0; j < split; j++ {
@@ -158,14 +179,19 @@ func propExhaustive(c ExhCase, st *exhStats) *vlib.Failure {
 	}
 	shapes := c.Shapes
 	if len(shapes) == 0 {
-		shapes = idx(len(exhShapeList))
+		shapes = idx(exhShapeCount)
 	}
 	for _, si := range shapes {
-		if si < 0 || si >= len(exhShapeList) {
-			return vlib.Failf("harness-bad-case", "shape %d outside 0..%d", si, len(exhShapeList)-1)
+		if si < 0 || si >= exhShapeCount {
+			return vlib.Failf("harness-bad-case", "shape %d outside 0..%d", si, exhShapeCount-1)
 		}
 	}
-	e, f := openEnv(exhCorpus(c.Index))
+	shapeList := exhShapeLists[exhField(c.Index)]
+	corpus := exhCorpus(c.Index)
+	if c.Merged {
+		corpus.Offline = (c.Index>>15)&3 + 1
+	}
+	e, f := openEnv(corpus)
 	if f != nil {
 		return f
 	}
@@ -177,7 +203,7 @@ func propExhaustive(c ExhCase, st *exhStats) *vlib.Failure {
 	e.unguarded = true
 	return vlib.Watchdog("Reader.Search(exhaustive)", 3*callBound, func() *vlib.Failure {
 		for _, si := range shapes {
-			q := exhShapeList[si]
+			q := shapeList[si]
 			ctx := newEvalCtx(e.m)
 			r := ctx.eval(q)
 			st.evals++
@@ -220,6 +246,9 @@ func exhDescribe(index int) []string {
 			if len(op.Doc.T) > 0 {
 				s += "=" + op.Doc.T[0]
 			}
+			if len(op.Doc.K) > 0 {
+				s += "=k" + strings.Join(op.Doc.K, ",")
+			}
 			out = append(out, s)
 		}
 	}
@@ -227,9 +256,17 @@ func exhDescribe(index int) []string {
 }
 
 func exhRecord(c ExhCase, st *exhStats) {
+	if c.Merged {
+		ev.Evals(st.evals)
+		ev.Class("exhaustive-merged-twin:evaluations", st.evals)
+		ev.Class("exhaustive-merged-twin:indexes", 1)
+		ev.AddExtra("searches", st.searches)
+		return
+	}
 	ev.Evals(st.evals)
 	ev.Class("exhaustive:evaluations", st.evals)
 	ev.Class("exhaustive:indexes", 1)
+	ev.Class("exhaustive:indexes-field-"+exhField(c.Index), 1)
 	ev.AddExtra("searches", st.searches)
 	if st.nontrivial > 0 {
 		// one distinct non-trivial item per index (its shapes are the same list every time)
@@ -239,7 +276,7 @@ func exhRecord(c ExhCase, st *exhStats) {
 }
 
 func TestC07Exhaustive(t *testing.T) {
-	ev.Extra("exhaustive_shapes", strconv.Itoa(len(exhShapeList)))
+	ev.Extra("exhaustive_shapes", strconv.Itoa(exhShapeCount))
 	if !vlib.Thorough() {
 		// quick: a sample of the scope
 		vlib.Check(t, 150, 1, func(rt *rapid.T) {
@@ -251,6 +288,13 @@ func TestC07Exhaustive(t *testing.T) {
 				c.Shapes = nil
 			}
 			vlib.Report(rt, ev, "exhaustive", c, f)
+			if c.Index%4 == 0 {
+				twin := ExhCase{Index: c.Index, Merged: true}
+				var st2 exhStats
+				f2 := propExhaustive(twin, &st2)
+				exhRecord(twin, &st2)
+				vlib.Report(rt, ev, "exhaustive", twin, f2)
+			}
 		})
 		return
 	}
@@ -270,6 +314,15 @@ func TestC07Exhaustive(t *testing.T) {
 			return
 		}
 		done++
+		if (index/shards)%8 == 0 {
+			twin := ExhCase{Index: index, Merged: true}
+			var st2 exhStats
+			f2 := propExhaustive(twin, &st2)
+			exhRecord(twin, &st2)
+			if vlib.Report(t, ev, "exhaustive", twin, f2) {
+				return
+			}
+		}
 	}
 	ev.AddExtra("exhaustive_indexes_enumerated", done)
 	if complete {
